@@ -901,6 +901,11 @@ func runRoundTrips(r *mon.Run, zstd0Safe bool) {
 			// narrow class: zstd through stackless.Writer (the encoder writes blocks from its own
 			// goroutine while stackless.writer.do hands the buffer on)
 			key = "zstd-stackless-writer-lost-block"
+		} else if strings.HasPrefix(key, "roundtrip-mismatch-") && api == apiWritePlain {
+			// another codec's stream through stackless.Writer is undecodable: on the pinned tree this is
+			// collateral of the zstd class above (its late block lands in a pooled buffer that by then
+			// belongs to this writer); one key for all codecs
+			key = "stackless-writer-output-corrupted"
 		}
 		if key == "" {
 			// second decoder: fasthttp's own counterpart must agree
